@@ -855,8 +855,10 @@ def main():
         "wall_s": round(wall, 2),
         "violations": len(violations),
     }
-    os.makedirs(os.path.join(OUT, "evidence"), exist_ok=True)
-    json.dump(ev, open(os.path.join(OUT, "evidence", "%s.json" % prop), "w"), indent=1, default=str)
+    # a partial run (--only) must not replace the property's evidence file
+    evdir = os.path.join(OUT, "evidence") if not only else os.path.join(BUILD, "evidence-partial")
+    os.makedirs(evdir, exist_ok=True)
+    json.dump(ev, open(os.path.join(evdir, "%s.json" % prop), "w"), indent=1, default=str)
 
     # ---- report ----
     log("%s tier=%s seed=%d: symx %d goals discharged / %d undecided / %d paths (%d infeasible); kani %d/%d harnesses; solver %.1fs wall %.1fs" % (
